@@ -207,57 +207,59 @@ def run(ctx):
     val = [n for n in walk_no_nested(v.fi.node) if isinstance(n, ast.If) and "mode" in norm(n.test) and any(isinstance(b, ast.Raise) for b in n.body)]
     res.check(bool(val) and all(norm(x.test) in ("mode not in {'keep', 'remove'}", "mode not in ('keep', 'remove')", "mode not in ['keep', 'remove']") for x in val), "Q-PRED", f, norm(val[0].test) if val else "mode not in {'keep','remove'}", "mode-validated", "other mode strings are not rejected (the predicate is only meaningful for keep / remove)", loc(v.fi, v.fi.node))
     # ---- E-2PHASE
-    removes = [n for n in walk_no_nested(v.fi.node) if isinstance(n, ast.Call) and isinstance(n.func, ast.Attribute) and n.func.attr in ("remove_node", "remove_edge", "remove_nodes", "remove_edges") and norm(n.func.value) == "hypergraph"]
-    if not removes:
-        raise AnalysisError(f"{f}: removal calls not found")
-    for r in removes:
-        loops = v.enclosing_all(r, (ast.For, ast.While))
-        live = [l for l in loops if isinstance(l, ast.For) and "hypergraph." in norm(l.iter)]
-        res.check(not live, "E-2PHASE", f, norm(r), "not-while-iterating", f"`{norm(r)}` runs inside `for ... in {norm(live[0].iter) if live else ''}`: the hypergraph is modified while one of its own views is being iterated", loc(v.fi, r))
-    rn = [r for r in removes if r.func.attr.startswith("remove_node")]
-    re_ = [r for r in removes if r.func.attr.startswith("remove_edge")]
-    res.check(bool(rn) and bool(re_) and max(x.lineno for x in rn) < min(x.lineno for x in re_), "E-2PHASE", f, "remove_node ... remove_edge", "nodes-first", "hyperedges are filtered before nodes (hyperedges shrunk / dropped by node removal would be judged on stale data)", loc(v.fi, v.fi.node))
-    for r in rn:
-        kw = {k.arg: k.value for k in r.keywords}
-        ok = ("keep_edges" in kw and norm(kw["keep_edges"]) == "keep_edges") or (len(r.args) >= 2 and norm(r.args[1]) == "keep_edges")
-        res.check(ok, "F-FWD", f, norm(r), "keep_edges", "keep_edges is not forwarded to remove_node: incident hyperedges are always dropped (or always shrunk)", loc(v.fi, r))
+    with res.guard("E-2PHASE"):
+        removes = [n for n in walk_no_nested(v.fi.node) if isinstance(n, ast.Call) and isinstance(n.func, ast.Attribute) and n.func.attr in ("remove_node", "remove_edge", "remove_nodes", "remove_edges") and norm(n.func.value) == "hypergraph"]
+        if not removes:
+            raise AnalysisError(f"{f}: removal calls not found")
+        for r in removes:
+            loops = v.enclosing_all(r, (ast.For, ast.While))
+            live = [l for l in loops if isinstance(l, ast.For) and "hypergraph." in norm(l.iter)]
+            res.check(not live, "E-2PHASE", f, norm(r), "not-while-iterating", f"`{norm(r)}` runs inside `for ... in {norm(live[0].iter) if live else ''}`: the hypergraph is modified while one of its own views is being iterated", loc(v.fi, r))
+        rn = [r for r in removes if r.func.attr.startswith("remove_node")]
+        re_ = [r for r in removes if r.func.attr.startswith("remove_edge")]
+        res.check(bool(rn) and bool(re_) and max(x.lineno for x in rn) < min(x.lineno for x in re_), "E-2PHASE", f, "remove_node ... remove_edge", "nodes-first", "hyperedges are filtered before nodes (hyperedges shrunk / dropped by node removal would be judged on stale data)", loc(v.fi, v.fi.node))
+        for r in rn:
+            kw = {k.arg: k.value for k in r.keywords}
+            ok = ("keep_edges" in kw and norm(kw["keep_edges"]) == "keep_edges") or (len(r.args) >= 2 and norm(r.args[1]) == "keep_edges")
+            res.check(ok, "F-FWD", f, norm(r), "keep_edges", "keep_edges is not forwarded to remove_node: incident hyperedges are always dropped (or always shrunk)", loc(v.fi, r))
     # ---- E-ONLY
-    eff = Effects(ctx)
-    muts = [m for m in eff.mutations(v.fi) if m.root == "hypergraph"]
-    allowed = {id(r) for r in removes}
-    for m in muts:
-        res.check(id(m.node) in allowed, "E-ONLY", f, m.text(), "mutation", f"the hypergraph is modified other than through remove_node / remove_edge: {m.why}", loc(m.fi, m.node))
-    if not muts:
-        res.violation("E-ONLY", f, "hypergraph.remove_node(...)", "mutation", "filter_hypergraph never modifies the hypergraph", loc(v.fi, v.fi.node))
-
+    with res.guard("E-ONLY"):
+        eff = Effects(ctx)
+        muts = [m for m in eff.mutations(v.fi) if m.root == "hypergraph"]
+        allowed = {id(r) for r in removes}
+        for m in muts:
+            res.check(id(m.node) in allowed, "E-ONLY", f, m.text(), "mutation", f"the hypergraph is modified other than through remove_node / remove_edge: {m.why}", loc(m.fi, m.node))
+        if not muts:
+            res.violation("E-ONLY", f, "hypergraph.remove_node(...)", "mutation", "filter_hypergraph never modifies the hypergraph", loc(v.fi, v.fi.node))
     # ---- get_svh
-    b = ctx.view("statistical_filters._get_bipartite_representation")
-    fb = b.fi.short
-    wdef = [n for n in walk_no_nested(b.fi.node) if isinstance(n, ast.Assign) and isinstance(n.value, ast.Call) and isinstance(n.value.func, ast.Attribute) and n.value.func.attr == "get_weight"]
-    if len(wdef) != 1:
-        raise AnalysisError(f"{fb}: weight lookup not recognised")
-    wname = norm(wdef[0].targets[0])
-    outer = b.enclosing(wdef[0], (ast.For,))
-    res.check(outer is not None and norm(wdef[0].value.args[0]) == norm(outer.target), "V-MULT", fb, norm(wdef[0]), "weight-of-edge", "the multiplicity is not the weight of the hyperedge being expanded", loc(b.fi, wdef[0]))
-    reps = [n for n in ast.walk(outer) if isinstance(n, ast.For) and norm(n.iter) == f"range({wname})"] if outer is not None else []
-    res.check(len(reps) == 1, "V-MULT", fb, f"for _ in range({wname})", "multiplicity", "a hyperedge of weight w does not contribute w occurrences", loc(b.fi, outer or b.fi.node))
-    for rp in reps:
-        incs = [n for n in rp.body if isinstance(n, ast.AugAssign) and norm(n.target) == "edge_index" and isinstance(n.value, ast.Constant) and n.value.value == 1]
-        res.check(len(incs) == 1, "V-MULT", fb, "edge_index += 1", "one-id-per-occurrence", "occurrences of a weighted hyperedge do not get distinct occurrence ids", loc(b.fi, rp))
-        apps = [n for n in ast.walk(rp) if isinstance(n, ast.Call) and isinstance(n.func, ast.Attribute) and n.func.attr == "append"]
-        res.check(bool(apps) and all(b.enclosing(a, (ast.For,)) is not rp and norm(b.enclosing(a, (ast.For,)).iter) == norm(outer.target) for a in apps), "V-MULT", fb, norm(apps[0]) if apps else "bipartite_list.append((node, edge_index))", "all-nodes", "an occurrence does not list every node of the hyperedge", loc(b.fi, rp))
-    s = ctx.view("statistical_filters.get_svh")
-    fs = s.fi.short
-    txt = norm(s.fi.node)
-    res.check("orders[(orders >= 2) & (orders <= max_order)]" in txt, "V-MULT", fs, "orders[(orders >= 2) & (orders <= max_order)]", "size-range", "the validated sizes are not exactly 2..max_order", loc(s.fi, s.fi.node))
-    flags = [n for n in walk_no_nested(s.fi.node) if isinstance(n, ast.Assign) and isinstance(n.targets[0], ast.Subscript) and isinstance(n.targets[0].slice, ast.Constant) and n.targets[0].slice.value == "fdr"]
-    if len(flags) != 1:
-        raise AnalysisError(f"{fs}: validated flag not recognised")
-    c = flags[0].value
-    ok = isinstance(c, ast.Compare) and isinstance(c.ops[0], ast.Lt) and "pvalue" in norm(c.left) and isinstance(c.comparators[0], ast.Name)
-    res.check(ok, "V-MULT", fs, norm(flags[0]), "single-threshold", "the validated flag is not `pvalue < <one scalar threshold per size>`: a hyperedge could be validated while one with a smaller p-value is not", loc(s.fi, flags[0]))
-    pv = [n for n in walk_no_nested(s.fi.node) if isinstance(n, ast.Call) and "_approximated_pvalue" in norm(n)]
-    res.check(bool(pv), "V-MULT", fs, "_approximated_pvalue", "pvalue-source", "p-values are not computed by the binomial survival function", loc(s.fi, s.fi.node))
+    with res.guard("get_svh"):
+        b = ctx.view("statistical_filters._get_bipartite_representation")
+        fb = b.fi.short
+        wdef = [n for n in walk_no_nested(b.fi.node) if isinstance(n, ast.Assign) and isinstance(n.value, ast.Call) and isinstance(n.value.func, ast.Attribute) and n.value.func.attr == "get_weight"]
+        if len(wdef) != 1:
+            raise AnalysisError(f"{fb}: weight lookup not recognised")
+        wname = norm(wdef[0].targets[0])
+        outer = b.enclosing(wdef[0], (ast.For,))
+        res.check(outer is not None and norm(wdef[0].value.args[0]) == norm(outer.target), "V-MULT", fb, norm(wdef[0]), "weight-of-edge", "the multiplicity is not the weight of the hyperedge being expanded", loc(b.fi, wdef[0]))
+        reps = [n for n in ast.walk(outer) if isinstance(n, ast.For) and norm(n.iter) == f"range({wname})"] if outer is not None else []
+        res.check(len(reps) == 1, "V-MULT", fb, f"for _ in range({wname})", "multiplicity", "a hyperedge of weight w does not contribute w occurrences", loc(b.fi, outer or b.fi.node))
+        for rp in reps:
+            incs = [n for n in rp.body if isinstance(n, ast.AugAssign) and norm(n.target) == "edge_index" and isinstance(n.value, ast.Constant) and n.value.value == 1]
+            res.check(len(incs) == 1, "V-MULT", fb, "edge_index += 1", "one-id-per-occurrence", "occurrences of a weighted hyperedge do not get distinct occurrence ids", loc(b.fi, rp))
+            apps = [n for n in ast.walk(rp) if isinstance(n, ast.Call) and isinstance(n.func, ast.Attribute) and n.func.attr == "append"]
+            res.check(bool(apps) and all(b.enclosing(a, (ast.For,)) is not rp and norm(b.enclosing(a, (ast.For,)).iter) == norm(outer.target) for a in apps), "V-MULT", fb, norm(apps[0]) if apps else "bipartite_list.append((node, edge_index))", "all-nodes", "an occurrence does not list every node of the hyperedge", loc(b.fi, rp))
+        s = ctx.view("statistical_filters.get_svh")
+        fs = s.fi.short
+        txt = norm(s.fi.node)
+        res.check("orders[(orders >= 2) & (orders <= max_order)]" in txt, "V-MULT", fs, "orders[(orders >= 2) & (orders <= max_order)]", "size-range", "the validated sizes are not exactly 2..max_order", loc(s.fi, s.fi.node))
+        flags = [n for n in walk_no_nested(s.fi.node) if isinstance(n, ast.Assign) and isinstance(n.targets[0], ast.Subscript) and isinstance(n.targets[0].slice, ast.Constant) and n.targets[0].slice.value == "fdr"]
+        if len(flags) != 1:
+            raise AnalysisError(f"{fs}: validated flag not recognised")
+        c = flags[0].value
+        ok = isinstance(c, ast.Compare) and isinstance(c.ops[0], ast.Lt) and "pvalue" in norm(c.left) and isinstance(c.comparators[0], ast.Name)
+        res.check(ok, "V-MULT", fs, norm(flags[0]), "single-threshold", "the validated flag is not `pvalue < <one scalar threshold per size>`: a hyperedge could be validated while one with a smaller p-value is not", loc(s.fi, flags[0]))
+        pv = [n for n in walk_no_nested(s.fi.node) if isinstance(n, ast.Call) and "_approximated_pvalue" in norm(n)]
+        res.check(bool(pv), "V-MULT", fs, "_approximated_pvalue", "pvalue-source", "p-values are not computed by the binomial survival function", loc(s.fi, s.fi.node))
     res.assumptions += ["the binomial survival formula and the step-up threshold value are not decided", "`hypergraph` of filter_hypergraph ranges over all four container classes (tables.POLYMORPHIC)"]
     return res
 
